@@ -11,6 +11,8 @@ from ..cfg import cfg_of
 from ..model import FunctionInfo, AnalysisError, dotted
 from ..report import Ctx
 from ..util import norm, fn_body_nodes, walk_local, kwarg
+from .. import pat
+from ..pat import Snips
 from .common import arg_permutation_rule, names_in, calls_named
 from . import simloop as SL
 
@@ -331,37 +333,46 @@ def rule_policy_and_wiring(ctx: Ctx):
         mx = [a for a in ast.walk(f.node) if isinstance(a, ast.Assign) and isinstance(a.value, ast.Call) and isinstance(a.value.func, ast.Name) and a.value.func.id == "max"]
         ok = ok and bool(mx) and ast.unparse(cond.comparators[0]) == mx[0].targets[0].id and ".values()" in ast.unparse(mx[0].value)
     ctx.check(ok, "POL-1", f, comps[0] if comps else f.node, "greedy actions are exact maximisers of the state's Q-row", "", "the greedy set is not {a : Q[s][a] == max Q[s]}")
+    qp = cp.positional_params[2]
+    mdpp = cp.positional_params[1]
     row = [a for a in ast.walk(f.node) if isinstance(a, ast.Assign) and isinstance(a.value, ast.Subscript) and ast.unparse(a.value.slice) == s]
-    ctx.check(bool(row) and ast.unparse(row[0].value.value) == "q", "POL-1", f, row[0] if row else f.node, "row of the queried state in the returned table", "", "policy reads a different table/row")
+    ctx.check(bool(row) and ast.unparse(row[0].value.value) == qp, "POL-1", f, row[0] if row else f.node, "row of the queried state in the returned table", "", "policy reads a different table/row")
     hs = [h for h in ast.walk(f.node) if isinstance(h, ast.ExceptHandler)]
-    ok = bool(hs) and any(isinstance(x, ast.Assign) and ast.unparse(x.value) == f"mdp.actions({s})" for x in hs[0].body)
+    ok = bool(hs) and any(isinstance(x, ast.Assign) and ast.unparse(x.value) == f"{mdpp}.actions({s})" for x in hs[0].body)
     ctx.check(ok, "POL-1", f, hs[0] if hs else f.node, "unvisited states: all available actions mdp.actions(s)", "", "fallback for unvisited states is not mdp.actions(s)")
     rets = [r for r in ast.walk(f.node) if isinstance(r, ast.Return)]
     ok = bool(rets) and all(isinstance(r.value, ast.Call) and ast.unparse(r.value.func).endswith("uniform") for r in rets)
     ctx.check(ok, "POL-1", f, rets[0] if rets else f.node, "uniform over the greedy set", "", "policy is not uniform over the greedy set")
     # train_on wiring
     t = P.method("TemporalDifferenceLearning", "train_on")
-    src = {ast.unparse(n.targets[0]): n.value for n in fn_body_nodes(t) if isinstance(n, ast.Assign)}
-    q = src.get("q")
-    ok = isinstance(q, ast.Call) and ast.unparse(q.func) == f"{t.self_name}._training" and [ast.unparse(a) for a in q.args][:2] == ["mdp", "rng"]
-    ctx.check(ok, "WIRE-1", t, t.node, "q = self._training(mdp, rng, ...)", "", "train_on does not run the learner's training loop on the given mdp/generator")
+    tm = t.positional_params[1]
+    S = Snips(t)
+    tr = S.find(f"q = {t.self_name}._training({tm}, rng, REST)")
+    gen = S.find(f"rng = {t.self_name}._init_random_number_generator()", tr[0][1] if tr else None)
+    ctx.check(bool(tr) and bool(gen), "WIRE-1", t, tr[0][0] if tr else t.node, "trained table = self._training(mdp, <the learner's generator>, ...)", "", "train_on does not run the learner's training loop on the given mdp/generator")
+    qn = tr[0][1]["q"] if tr else None
     r = [n for n in fn_body_nodes(t) if isinstance(n, ast.Return)]
     if r and isinstance(r[0].value, ast.Call):
         qv, pl = kwarg(r[0].value, "q_values"), kwarg(r[0].value, "policy")
-        ctx.check(qv is not None and ast.unparse(qv) == "q", "WIRE-1", t, r[0], "q_values is the trained table", "", "returned q_values is not the trained table")
-        ctx.check(pl is not None and ast.unparse(pl) == f"{t.self_name}._create_policy(mdp, q)", "WIRE-1", t, r[0], "policy built from the returned table", "", "returned policy is not built from the returned table")
+        ctx.check(qv is not None and qn is not None and ast.unparse(qv) == qn, "WIRE-1", t, r[0], "q_values is the trained table", "", "returned q_values is not the trained table")
+        ctx.check(pl is not None and qn is not None and ast.unparse(pl) == f"{t.self_name}._create_policy({tm}, {qn})", "WIRE-1", t, r[0], "policy built from the returned table", "", "returned policy is not built from the returned table")
     # double Q returns the mean over the union of keys
     dq = P.method("DoubleQLearning", "_training")
+    dm = dq.positional_params[1]
+    rets = [n for n in fn_body_nodes(dq) if isinstance(n, ast.Return) and isinstance(n.value, ast.Name)]
+    outn = rets[-1].value.id if rets else None
+    tabs = [n.targets[0].id for n in fn_body_nodes(dq) if isinstance(n, ast.Assign) and isinstance(n.targets[0], ast.Name)
+            and ast.unparse(n.value) == f"{dq.self_name}._initial_q_table({dm})"]
     means = [n for n in fn_body_nodes(dq) if isinstance(n, ast.Assign) and isinstance(n.targets[0], ast.Subscript)
-             and isinstance(n.targets[0].value, ast.Subscript) and ast.unparse(n.targets[0].value.value) == "q"]
-    if means:
+             and isinstance(n.targets[0].value, ast.Subscript) and outn is not None and ast.unparse(n.targets[0].value.value) == outn]
+    if means and len(tabs) == 2:
         m = means[0]
         k1, k2 = ast.unparse(m.targets[0].value.slice), ast.unparse(m.targets[0].slice)
         p = alg.normalise(m.value)
-        want = {((f"q1[{k1}][{k2}]", 1),): Fraction(1, 2), ((f"q2[{k1}][{k2}]", 1),): Fraction(1, 2)}
+        want = {((f"{tabs[0]}[{k1}][{k2}]", 1),): Fraction(1, 2), ((f"{tabs[1]}[{k1}][{k2}]", 1),): Fraction(1, 2)}
         ctx.check(p == want, "WIRE-1", dq, m, "double Q returns the mean of both tables", alg.show(p), f"returned table is `{alg.show(p)}`, not the mean of both estimates")
         loops = [n for n in fn_body_nodes(dq) if isinstance(n, ast.For) and any(m is x for x in ast.walk(n)) and isinstance(n.target, ast.Name) and n.target.id == k1]
-        ok = bool(loops) and "q1.keys()" in ast.unparse(loops[0].iter) and "q2.keys()" in ast.unparse(loops[0].iter) and "|" in ast.unparse(loops[0].iter)
+        ok = bool(loops) and pat.m(f"set({tabs[0]}.keys()) | set({tabs[1]}.keys())", loops[0].iter) is not None
         ctx.check(ok, "WIRE-1", dq, loops[0] if loops else m, "over the union of both tables' states", "", "states visited in only one table are dropped")
     else:
         ctx.violation("WIRE-1", dq, dq.node, "double Q returns the mean of both tables", "no mean of q1 and q2 is returned")
